@@ -63,7 +63,7 @@ def plan(tier, seed):
 
 def mandatory(tier):
     out = [f"class/{n}" for n in X.ALL] + [f"kind/{k}" for k in X.KINDS] + ["groups/1", "groups/N"]
-    out += ["fresh_identity", "forward/grid_flag/finer_grid/nonzero_boundary", "disp/own", "disp/resized", "disp/other_domain", "points/world", "pointset_transformer", "sequential", "multilevel", "generic", "image/equal", "image/same_domain", "image/other_domain", "matrix"]
+    out += ["fresh_identity", "non_identity", "forward/grid_flag/finer_grid/nonzero_boundary", "disp/own", "disp/resized", "disp/other_domain", "points/world", "pointset_transformer", "sequential", "multilevel", "generic", "image/equal", "image/same_domain", "image/other_domain", "matrix"]
     return out
 
 
@@ -144,7 +144,12 @@ def case(ctx, i):
     with torch.no_grad():
         y = t(x).double().numpy()  # (G, M, D) reference view
     ctx.true("point_map_shape", y.shape == (G, 11, D), key="forward/shape", got=list(y.shape), **info)
-    ctx.true("transform_is_not_identity", float(np.abs(y - x.numpy()).max()) > 1e-4, key="generator/identity", **info)
+    # generator sanity: random parameters are almost never the identity (a scale factor drawn next to 1 can be); counted,
+    # and a run in which no case moved anything would be inconclusive (mandatory bucket)
+    if float(np.abs(y - x.numpy()).max()) > 1e-4:
+        ctx.bucket("non_identity")
+    else:
+        ctx.count("near_identity_cases")
 
     def grid_map(h):
         r"""Expected displacement (G, D, ..., X) in cube units of grid ``h`` from the point map."""
